@@ -60,6 +60,9 @@ def protection : Loc → Protection
   | .Server_documents => .atomicCell
   | .Server_loader => .immutableAfterInit
   | .Server_payeeTemplatesCache => .atomicCell
+  -- numbering of the configuration refreshes: taken on the handler thread (nextRefresh),
+  -- compared by the refresh goroutines (isNewestRefresh), both under settingsMu
+  | .Server_refreshSeq => .guardedBy .Server_settingsMu
   | .Server_resolved => .atomicCell
   | .Server_rootURI => .immutableAfterInit
   | .Server_settings => .guardedBy .Server_settingsMu
@@ -106,6 +109,84 @@ def protection : Loc → Protection
   | .server_tokenCache => .immutableAfterInit
   | .workspace_excludedDirs => .immutableAfterInit
 
+/-! ### The memory behind reference-typed shared data (escape table)
+
+  `storeProtection` states, per store, the protection the C14 alias proofs rely on.  It is
+  keyed by the store's NAME and has a default, so that code which starts (or stops) touching
+  some slice, map or syntax-tree field changes nothing here as long as it only READS shared
+  memory: the default is the strictest protection, "immutable after publication" — written
+  only while the object is still private to the function that builds it (`fresh`), read-only
+  for everybody afterwards, escaped aliases included.  That is the protection of the cached
+  syntax trees (`Journal_*`, `Transaction_*`, `Posting_*`, … shared between the loader cache,
+  the per-document trees and the workspace), of the cached parse errors (`cachedFile_errors`:
+  every load takes its own copy), of the per-document include trees (`ResolvedJournalDoc_*`),
+  of the workspace's declared-name and format caches (built privately, published, replaced but
+  never modified) and of the semantic-token arrays.  A new un-copied escape that is appended to
+  or written through is therefore an uncovered row: `HL.Props.C14.escapes_covered` fails and
+  the build log names the store, the function and the line. -/
+
+def storeProtectionByName : String → Protection
+  -- include.Loader: the cache map itself is only touched inside Loader.mu regions
+  | "Loader_cache" => .guardedBy .Loader_mu
+  -- server.Server: the version map
+  | "Server_docVersions" => .guardedBy .Server_docVerMu
+  -- the semantic-token cache map
+  | "semanticTokensCache_cache" => .guardedBy .semanticTokensCache_mu
+  -- workspace.Workspace: include graphs and their edge lists are modified in place
+  -- (removeString / addString / append) inside Workspace.mu regions and never leave them
+  | "Workspace_includeGraph" => .guardedBy .Workspace_mu
+  | "Workspace_includeGraph_elem" => .guardedBy .Workspace_mu
+  | "Workspace_reverseGraph" => .guardedBy .Workspace_mu
+  | "Workspace_reverseGraph_elem" => .guardedBy .Workspace_mu
+  | "Workspace_parseErrors" => .guardedBy .Workspace_mu
+  -- workspace.WorkspaceIndex: counters and per-file indexes, modified in place under Workspace.mu
+  | "WorkspaceIndex_accountCounts" => .guardedBy .Workspace_mu
+  | "WorkspaceIndex_commodityCounts" => .guardedBy .Workspace_mu
+  | "WorkspaceIndex_dateCounts" => .guardedBy .Workspace_mu
+  | "WorkspaceIndex_fileIndexes" => .guardedBy .Workspace_mu
+  | "WorkspaceIndex_payeeCounts" => .guardedBy .Workspace_mu
+  | "WorkspaceIndex_payeeTemplates" => .guardedBy .Workspace_mu
+  | "WorkspaceIndex_tagCounts" => .guardedBy .Workspace_mu
+  | "WorkspaceIndex_tagValueCounts" => .guardedBy .Workspace_mu
+  | "WorkspaceIndex_tagValueCounts_elem" => .guardedBy .Workspace_mu
+  | "WorkspaceIndex_transactionsByKey" => .guardedBy .Workspace_mu
+  | "WorkspaceIndex_transactionsByKey_elem" => .guardedBy .Workspace_mu
+  -- the workspace's own include tree: its file map and file order are modified in place by
+  -- UpdateFile (handler thread, Workspace.mu held exclusively); the handler thread reads them
+  -- through the pointer GetResolved hands out (an escaped alias, same thread); background
+  -- threads only inside Workspace.mu regions
+  | "ResolvedJournal_Files" => .mainOwned .Workspace_mu
+  | "ResolvedJournal_FileOrder" => .mainOwned .Workspace_mu
+  -- everything else: immutable after publication
+  | _ => .immutableAfterInit
+
+def storeProtection (s : Store) : Protection := storeProtectionByName s.name
+
+/-- `covered`, for a protection given directly. -/
+def coveredBy {ι : Type} (p : Protection) (r : Row ι Lock) : Bool :=
+  r.fresh || r.role == .init ||
+  match p with
+  | .guardedBy l => r.locks.any (fun x => x.1 == l && (r.kind == .read || x.2 == .excl))
+  | .atomicCell => r.atomic
+  | .immutableAfterInit => r.kind == .read
+  | .mainOnly => r.role == .main
+  | .mainOwned l =>
+    if r.role == .main then r.kind == .read || r.locks.any (fun x => x.1 == l && x.2 == .excl)
+    else r.kind == .read && r.locks.any (fun x => x.1 == l)
+
+/-- Is the escape row an instance of the protection stated for its store? -/
+def escapeCovered (e : Escape Store Lock) : Bool := coveredBy (storeProtection e.store) e.toRow
+
+def uncoveredEscapes : List (Escape Store Lock) := escapes.filter fun e => !escapeCovered e
+
+/-- Functions of other modules that may be handed a reference into shared memory: they only
+    read what they are given. -/
+def readOnlyExternals : List String :=
+  ["strings.Join", "fmt.Sprintf", "fmt.Sprint", "fmt.Errorf", "encoding/json.Marshal", "slices.Contains",
+   "slices.Index", "slices.Equal", "slices.BinarySearch", "sort.SearchStrings", "maps.Keys", "maps.Values"]
+
+def externalsOK : Bool := externalUses.all fun f => readOnlyExternals.contains f
+
 def holds (r : Row Loc Lock) (l : Lock) (needExcl : Bool) : Bool :=
   r.locks.any fun x => x.1 == l && (!needExcl || x.2 == .excl)
 
@@ -127,10 +208,13 @@ def uncovered : List (Row Loc Lock) := accessTable.filter fun r => !covered r
 
 /-- The lock order the deadlock proof relies on: Workspace.mu may be held while Loader.mu is
     taken (Workspace.Initialize → Loader.Load), publishMu while docVerMu is taken
-    (publishIfCurrent → isCurrentDocVersion), never the other way round; settingsMu and the
-    token-cache mutex are leaf locks taken with nothing else held. -/
+    (publishIfCurrent → isCurrentDocVersion), refreshMu while settingsMu or Loader.mu is taken
+    (applyConfiguration → isNewestRefresh / getSettings / setSettings → SetLimits, reinitCLI),
+    never the other way round; settingsMu is an innermost lock (nothing is taken while it is
+    held), the token-cache mutex is taken with nothing else held. -/
 def lockRank : Lock → Nat
-  | .Server_settingsMu => 0
+  | .Server_refreshMu => 0
+  | .Server_settingsMu => 3
   | .semanticTokensCache_mu => 0
   | .Workspace_mu => 1
   | .Loader_mu => 2
